@@ -49,7 +49,7 @@ def lattice():
                "model": use_model, "interface": not use_model}
 
 
-def call_real(M, opts, T):
+def call_real(M, opts, T, interface=None):
     from bioscrape.simulator import py_simulate_model, ModelCSimInterface, SafeModelCSimInterface
     from bioscrape.types import Volume
     from bioscrape.random import py_seed_random
@@ -67,7 +67,7 @@ def call_real(M, opts, T):
     if opts["model"]:
         kw["Model"] = M
     if opts["interface"]:
-        kw["Interface"] = (SafeModelCSimInterface if opts["safe"] else ModelCSimInterface)(M)
+        kw["Interface"] = interface if interface is not None else (SafeModelCSimInterface if opts["safe"] else ModelCSimInterface)(M)
     py_seed_random(11)
     try:
         res = py_simulate_model(T.copy(), **kw)
@@ -182,6 +182,36 @@ def run(ctx):
         ctx.nontriv((mname, gname, tuple(sorted(opts.items()))))
         ctx.count("outcome:" + real["outcome"])
         ctx.sample({"model": mname, "grid": gname, "options": opts, "outcome": real["outcome"]}, cap=3)
+    session_pass(ctx)
+
+
+def session_pass(ctx):
+    """the same Model object (and the same pre-built interfaces) taken through the whole lattice, as a user session does:
+    every call's first row must still be the specified initial condition with rules applied, its time axis the request."""
+    from bioscrape.simulator import ModelCSimInterface, SafeModelCSimInterface
+    for mname, spec in MODELS.items():
+        T = GRIDS["5"]
+        first = expected_first_row(build_model(spec), T)
+        M = build_model(spec)
+        kept = {False: ModelCSimInterface(M), True: SafeModelCSimInterface(M)}
+        history = []
+        for opts in lattice():
+            ctx.begin_case({"model": mname, "grid": "5", "options": opts, "session": True, "earlier_calls": len(history)})
+            real = call_real(M, opts, T, interface=kept[opts["safe"]] if opts["interface"] else None)
+            ctx.evaluated()
+            history.append(opts)
+            if real["outcome"] != "result":
+                continue                       # decided by the fresh-model pass
+            rep = {"model": mname, "grid": "5", "options": opts, "session": True, "implementation": real, "earlier_calls": history[-6:-1]}
+            if real["rows"] != len(T) or real["time"] is None or not np.array_equal(np.array(real["time"], dtype=float), T):
+                ctx.violation("entry/session/shape", "after earlier calls on the same model the result has a different shape or time axis", rep)
+                return
+            if not np.allclose(real["first"], first, rtol=1e-7, atol=1e-9):
+                ctx.violation("entry/session/first-row", "after earlier calls on the same model the first row %s is no longer the initial condition "
+                              "with rules applied %s" % (real["first"], first), rep)
+                return
+            ctx.count("session_calls")
+        ctx.nontriv(("session", mname))
 
 
 def call_real_neither(opts, T):
